@@ -259,6 +259,15 @@ impl<'tcx> Cx<'tcx> {
             Const::Val(v, _) => {
                 match v {
                     ConstValue::Scalar(sc) => {
+                        // pointer to a static: name the static
+                        if let rustc_middle::mir::interpret::Scalar::Ptr(ptr, _) = sc {
+                            let (prov, _) = ptr.prov_and_relative_offset();
+                            if let Some(rustc_middle::mir::interpret::GlobalAlloc::Static(sd)) =
+                                tcx.try_get_global_alloc(prov.alloc_id())
+                            {
+                                fields.push(("static", J::s(self.path(sd))));
+                            }
+                        }
                         if let Ok(i) = sc.try_to_scalar_int() {
                             let size = i.size();
                             let bits = i.to_bits(size);
